@@ -236,8 +236,8 @@ SearchBranch ==
   /\ LET d0 == ChooseVar(P, Box) IN
      IF d0 = -1 THEN pc' = "BranchOnNothing" /\ UNCHANGED <<doms, ne, upd, trig, stats, g>>
      ELSE LET res == BranchOf(P, Box, d0 + 1) IN
-          IF Top - 1 + Len(res.levels) > P.cfg.height
-          THEN pc' = "PushBeyondHeight" /\ UNCHANGED <<doms, ne, upd, trig, stats, g>>
+          IF Top - 1 + Len(res.levels) > P.cfg.height      \* solve_one checks the height right after the heuristic
+          THEN pc' = "CapacityError" /\ UNCHANGED <<doms, ne, upd, trig, stats, g>>
           ELSE /\ Push(res)
                /\ trig' = AddProps(P, trig, ne[Top], d0 + 1, res.events)
                /\ stats' = [Stat(CH) EXCEPT ![DEPTH] = IF Top - 2 + Len(res.levels) > @ THEN Top - 2 + Len(res.levels) ELSE @]
@@ -316,8 +316,8 @@ ShPick ==
      IF d0 = -1 THEN ShReturn(1) /\ UNCHANGED <<doms, ne, upd, trig, stats, g, sh, ret, prev>>
      ELSE LET res == IF sh.bound = 1 THEN MaxValue(Box, d0 + 1) ELSE MinValue(Box, d0 + 1)
               ev  == res.events      \* min/max_value always announce GROUND; shave_bound's extra OR is a no-op
-          IN IF Top + 1 > P.cfg.height
-             THEN pc' = "PushBeyondHeight" /\ UNCHANGED <<doms, ne, upd, trig, stats, g, sh, ret, prev, bcst>>
+          IN IF FALSE     \* a probe may use one of the two spare levels: no capacity error here
+             THEN pc' = "CapacityError" /\ UNCHANGED <<doms, ne, upd, trig, stats, g, sh, ret, prev, bcst>>
              ELSE /\ Push(res)
                   /\ trig' = AddProps(P, trig, ne[Top], d0 + 1, ev)
                   /\ sh' = [sh EXCEPT !.dom = d0]
@@ -359,7 +359,7 @@ ObjOf(x) == x[ObjDom] + OffOf(P, P.cfg.var)
 TypeOK ==
   /\ Len(doms) = Len(ne) /\ Len(upd) = Len(doms) - 1 /\ Len(doms) >= 1
   /\ pc \in {"consistency", "bc", "search", "solution", "resume", "exhausted", "done", "shloop", "shmain",
-             "shpick", "shprobe", "BranchOnNothing", "PushBeyondHeight"}
+             "shpick", "shprobe", "BranchOnNothing", "CapacityError"}
 
 \* C01: whatever is reported as a solution satisfies every posted constraint, inside the declared domains
 C01_ReportedSat == pc = "solution" => (IsPoint(Box) /\ InBox(PointOf(Box), P.doms) /\ SatAll(P, PointOf(Box)))
@@ -405,7 +405,9 @@ C17_Conservation == (pc = "done" /\ P.cfg.mode = "solve" /\ P.cfg.ca = 0) =>
                        (stats[BT] = g.lvls /\ stats[BCNB] = 1 + stats[CH] + stats[BT])
 C17_Solutions == P.cfg.mode = "solve" => stats[SOLNB] = Len(yielded) + (IF pc = "solution" THEN 1 ELSE 0)
 \* C19: the stack never outgrows the configured height
-C19_Fits == pc # "PushBeyondHeight" /\ Top <= P.cfg.height
+\* (a shaving probe may sit on the first spare level; the search itself never does: it stops with an error)
+C19_Fits == Top <= P.cfg.height + 1 /\ (pc \in {"consistency", "search", "solution", "resume"} => Top <= P.cfg.height)
+C19_ErrorOnlyWhenFull == pc = "CapacityError" => Top + 2 > P.cfg.height
 \* termination (checked under FairSpec on the reduced family)
-Terminates == <>(pc \in {"done", "BranchOnNothing", "PushBeyondHeight"})
+Terminates == <>(pc \in {"done", "BranchOnNothing", "CapacityError"})
 =============================================================================
